@@ -63,7 +63,9 @@ func LoadProgram(repo string, overlay map[string][]byte) (*Program, error) {
 		}
 		k := funcKey(fn)
 		if k != "" {
-			if _, dup := p.ByKey[k]; !dup {
+			// wrappers synthesised by go/ssa (pointer-receiver wrappers, bound methods,
+			// thunks) share the key of the declared function: the declared one wins
+			if old, dup := p.ByKey[k]; !dup || (old.Synthetic != "" && fn.Synthetic == "") {
 				p.ByKey[k] = fn
 			}
 		}
